@@ -1,5 +1,5 @@
 # replay of a bounded stand-in violation (C15): re-run native/c15_hbar.py
 import sys
-print('gaussian homodyne-select hbar=0.5: second run reports the outcome 0.565685, selected 0.282843')
+print('fock homodyne-select hbar=3.1: second run reports the outcome 0.565685, selected 0.704273')
 print('REPLAY-VIOLATION')
 sys.exit(1)
